@@ -82,7 +82,7 @@ Proof.
       rewrite frame_point. cbn [vx vy vz].
       assert (E : vsub x (v2r c) = vzero).
       { apply dot_self_zero. rewrite Z in H. pose proof (dot_self_nonneg (vsub x (v2r c))). lra. }
-      apply vsub_eq_iff in E. rewrite E. vsimp. f_equal; ring.
+      apply (proj1 (vsub_eq_iff _ _ _)) in E. rewrite E. vsimp. f_equal; ring.
     + assert (Hp : 0 < Q2R r) by lra.
       set (d := vsub x (v2r c)) in *.
       exists (V (vx d / Q2R r) (vy d / Q2R r) (vz d / Q2R r)). split.
@@ -138,7 +138,7 @@ Proof.
     { apply bridge_sphere; auto. cbn [sem]. exists (v2r qzero), z. repeat split; auto. rewrite qzero_r. vsimp. f_equal; ring. }
     apply sphere_set_iff in Hb. rewrite qzero_r in Hb.
     replace (vsub x (vadd (v2r c) (vscale t (v2r w)))) with (vsub z vzero); auto.
-    apply vsub_eq_iff in E. rewrite E. generalize (v2r c) (v2r w). intros. vsimp. f_equal; ring.
+    apply (proj1 (vsub_eq_iff _ _ _)) in E. rewrite E. generalize (v2r c) (v2r w). intros. vsimp. f_equal; ring.
   - intros (t & Ht & Hd).
     set (z := vsub x (vadd (v2r c) (vscale t (v2r w)))) in *.
     assert (Hb : sphere_set (v2r qzero) (Q2R r) z).
@@ -190,3 +190,65 @@ Qed.
 (** ** vertex hulls and meshes are the hull of the (world) vertices by definition *)
 Theorem bridge_hull (ps : list VQ) (x : V3R) : sem (HullPts ps) x <-> conv_hull (map v2r ps) x.
 Proof. reflexivity. Qed.
+
+(** ** from the unit canonical sets to the sized sets of Spec/Shapes.v: scaling the columns of
+       the pose by the sizes.  With these, e.g.
+       [sem (Sum (Pt c) (Sum (Seg u) (Sum (Seg v) (Seg w)))) = box_set T size] whenever
+       [u, v, w] are the columns of [rot T] scaled by the half sizes and [c = trans T]. *)
+Definition scale_cols (m : M3 R) (a : V3R) : M3 R :=
+  of_cols (vscale (vx a) (col m 0)) (vscale (vy a) (col m 1)) (vscale (vz a) (col m 2)).
+
+Lemma scale_cols_point (T : Pose R) (a k : V3R) :
+  transform_point (P (scale_cols (rot T) a) (trans T)) k = transform_point T (vmul a k).
+Proof. unfold scale_cols, of_cols. destruct T as [[[m00 m01 m02] [m10 m11 m12] [m20 m21 m22]] [t0 t1 t2]].
+  destruct a as [a0 a1 a2], k as [k0 k1 k2]. vunfold. cbn. f_equal; ring. Qed.
+
+Lemma image_scale (T : Pose R) (a : V3R) (K K' : set3) :
+  0 < vx a -> 0 < vy a -> 0 < vz a ->
+  (forall k, K (vmul a k) <-> K' k) ->
+  forall x, image T K x <-> image (P (scale_cols (rot T) a) (trans T)) K' x.
+Proof.
+  intros A0 A1 A2 HK x. split.
+  - intros (k & Hk & ->).
+    exists (V (vx k / vx a) (vy k / vy a) (vz k / vz a)).
+    assert (E : vmul a (V (vx k / vx a) (vy k / vy a) (vz k / vz a)) = k).
+    { destruct a as [a0 a1 a2], k as [k0 k1 k2]. cbn [vx vy vz] in *. vunfold. cbn [vx vy vz]. f_equal; field; lra. }
+    split; [apply HK; rewrite E; exact Hk|]. rewrite scale_cols_point, E. reflexivity.
+  - intros (k & Hk & ->). exists (vmul a k). split; [apply HK; exact Hk|]. apply scale_cols_point.
+Qed.
+
+Theorem box_set_unit (T : Pose R) (size : V3R) (x : V3R) : 0 < vx size -> 0 < vy size -> 0 < vz size ->
+  (box_set T size x <-> image (P (scale_cols (rot T) (vscale (/ 2) size)) (trans T)) (box_K (V 1 1 1)) x).
+Proof.
+  intros S0 S1 S2. unfold box_set. apply image_scale.
+  - destruct size as [s0 s1 s2]; vunfold; cbn [vx vy vz] in *; lra.
+  - destruct size as [s0 s1 s2]; vunfold; cbn [vx vy vz] in *; lra.
+  - destruct size as [s0 s1 s2]; vunfold; cbn [vx vy vz] in *; lra.
+  - intros [k0 k1 k2]. destruct size as [s0 s1 s2]. unfold box_K, vmul, vscale. cbn [vx vy vz] in *.
+    assert (A : forall s k, 0 < s -> (Rabs (/ 2 * s * k) <= / 2 * s <-> Rabs k <= 1)).
+    { intros s k Hs. rewrite Rabs_mult, (Rabs_pos_eq (/ 2 * s)) by lra. split; intros H; nra. }
+    rewrite !A by auto. tauto.
+Qed.
+
+Theorem ellipsoid_set_unit (T : Pose R) (radii : V3R) (x : V3R) : 0 < vx radii -> 0 < vy radii -> 0 < vz radii ->
+  (ellipsoid_set T radii x <-> image (P (scale_cols (rot T) radii) (trans T)) (ball_K 1) x).
+Proof.
+  intros A0 A1 A2. unfold ellipsoid_set. apply image_scale; auto.
+  intros [k0 k1 k2]. destruct radii as [a0 a1 a2]. unfold ellipsoid_K, ball_K, vmul. vunfold. cbn [vx vy vz] in *.
+  replace (a0 * k0 / a0) with k0 by (field; lra). replace (a1 * k1 / a1) with k1 by (field; lra).
+  replace (a2 * k2 / a2) with k2 by (field; lra). lra.
+Qed.
+
+Theorem cylinder_set_unit (T : Pose R) (r l : R) (x : V3R) : 0 < r -> 0 < l ->
+  (cylinder_set T r l x <-> image (P (scale_cols (rot T) (V r r (l / 2))) (trans T)) (cylinder_K 1 2) x).
+Proof.
+  intros Hr Hl. unfold cylinder_set. apply image_scale; cbn [vx vy vz]; try lra.
+  intros [k0 k1 k2]. unfold cylinder_K, vmul. cbn [vx vy vz].
+  assert (A : Rabs (l / 2 * k2) <= l / 2 <-> Rabs k2 <= 2 / 2).
+  { rewrite Rabs_mult, (Rabs_pos_eq (l / 2)) by lra. split; intros H; nra. }
+  rewrite A. cbn [mul ROps]. assert (Hrr : 0 < r * r) by nra.
+  assert (E : r * k0 * (r * k0) + r * k1 * (r * k1) = r * r * (k0 * k0 + k1 * k1)) by ring.
+  rewrite E. split; intros [B C]; split; auto.
+  - apply Rmult_le_reg_l with (r * r); auto. lra.
+  - apply Rmult_le_compat_l with (r := r * r) in B; lra.
+Qed.
